@@ -32,7 +32,7 @@ CLAIMED['C01'] = ('DESIGN.md 4/C01', 'The real Nigam-Jennings recurrence is exec
 CLAIMED['C02'] = ('DESIGN.md 4/C02', 'Relational obligations over pairs of symbolic executions of the real response code: '
     'linearity with symbolic alpha, beta and two symbolic records (polynomial identity), causality, shift, period '
     'order/batch independence (identical terms) and refinement invariance (all records, tolerance for the two '
-    'different double propagators), n<=8, stated (T/dt, xi) grid.')
+    'different double propagators), n<=8, stated (T/dt, xi) grid. Spectra batching: every pseudo/true spectral entry of any batch, order or container type (int or float) equals the value computed for that period alone (identical terms).')
 CLAIMED['C03'] = ('DESIGN.md 4/C03', 'Spectra shown to be absmax of the (C01) response terms by identical-term comparison, absmax = '
     'max|x| decided for every x (free arrays up to 2x12), pseudo relations with the true 2*pi, the 6*dt PGA cut incl. '
     'the boundary, container kinds, the AccSignal target-step/interpolation rule for min_dt_ratio in {1,2,4,8}, and the '
@@ -40,7 +40,7 @@ CLAIMED['C03'] = ('DESIGN.md 4/C03', 'Spectra shown to be absmax of the (C01) re
 CLAIMED['C13'] = ('DESIGN.md 4/C13', 'Symbolic execution of the peak-only series functions (in-place rebasing, plateau cleaning, sign '
     'normalisation; every rise/fall/flat pattern a path, n<=6) with the conservation laws and shift invariance decided '
     'by z3, and of the power-law cycle/amplitude functions with symbolic a_ref, n_cyc for b in {1, 1/2} (x**(1/b) '
-    'polynomial, y**b an exact algebraic root; rational-function arithmetic), n<=4.')
+    'polynomial, y**b an exact algebraic root; rational-function arithmetic), n<=4. Integer-dtype records are carried over by identical-term comparison with their float copy (b in {1, 1/2, 2}).')
 CLAIMED['C14'] = ('DESIGN.md 4/C14', 'interp_array_to_approx_dt / interp_to_approx_dt executed with symbolic record, dt AND target '
     '(1/8 <= dt/target <= 8): ceil/floor of the symbolic ratio fork over every feasible integer factor, so the step '
     'rule is decided over the reals for every ratio incl. non-commensurate ones; retained samples, subsequence, range, '
@@ -53,7 +53,7 @@ CLAIMED['C19'] = ('DESIGN.md 4/C19', 'calc_surface_energy / get_time_shift_motio
 CLAIMED['C06'] = ('DESIGN.md 4/C06', 'gen_fa_spectrum / generate_fa_spectrum / calc_fa_spectrum executed with symbolic record AND '
     'symbolic dt through the DFT-definition stub: N selection, zero padding, bin slice, dt scaling and the frequency '
     'grid compared bin by bin with an independent DFT oracle (npts<=9, p2_plus<=2, explicit even/odd n), linearity, '
-    'trailing zeros, Parseval, the Hermitian inverse (N<=16) and the dominant-bin selection (quadratic |F|^2 comparisons).')
+    'trailing zeros, Parseval, the Hermitian inverse (N<=16) and the dominant-bin selection (quadratic |F|^2 comparisons). Explicit option values (p2_plus=0 given explicitly, n together with p2_plus) are separate configurations.')
 CLAIMED['C07'] = ('DESIGN.md 4/C07', 'calc_smooth_fa_spectrum / smoothing matrix / Signal.smooth_fa_spectrum executed on a symbolic '
     'amplitude spectrum (frequencies and bandwidth enumerated, incl. targets exactly on the Fourier grid): every smoothed '
     'value is shown for ALL amplitudes to equal the independent Konno-Ohmachi weighted mean, to lie in [min,max], to '
@@ -72,7 +72,7 @@ CLAIMED['C17'] = ('DESIGN.md 4/C17', 'butter_pass executed symbolically through 
 CLAIMED['C18'] = ('DESIGN.md 4/C18', 'combine_at_angle / compute_rotated on symbolic component pairs (enumerated angles, offsets, '
     'parameter names and callables): every scanned value shown to be the measure of that combination; Cluster.same_start '
     'for 2..4 signals and every master index; Cluster.time_match with symbolic master samples and fill values for every '
-    'lag inside the window (each running-minimum comparison a fork, quadratic misfits decided by z3).')
+    'lag inside the window (each running-minimum comparison a fork, quadratic misfits decided by z3). Clusters of 3-4 signals with a different lag per non-master signal, some already in phase.')
 CLAIMED['C16'] = ('DESIGN.md 4/C16', 'save_signal -> every loader entry point executed with symbolic values (inside enumerated '
     'sign/decade classes), symbolic decimal digits of dt and enumerated lengths/labels/scale factors: the real formatting '
     'code and file system run on sentinel doubles, the symbolic meaning is recovered on read-back (value tokens within half '
